@@ -1,6 +1,6 @@
 """C03 - an FSM follows its transition table and runs its actions in the documented order.
 
-Generated FSM classes (type()) without timers; own interpreter of docs/FSM.rst as oracle.
+Generated FSM classes (type()), mostly without timers; own interpreter of docs/FSM.rst as oracle.
 See vf/fsmlab.py for the descriptor, the executor and the reference interpreter.
 """
 import itertools
@@ -37,7 +37,10 @@ ASSUMPTIONS = [
 def strategy(tier):
     big = fsmlab.fsm_desc(max_states=5, max_events=4, timers=False, flaky=True)
     small = fsmlab.fsm_desc(max_states=3, max_events=2, timers=False, flaky=True)
-    return st.one_of(small, small, big).flatmap(
+    # some machines with timed states: a chained transition must leave nothing behind of the
+    # intermediate state, a timer included (C04 looks at the timing proper)
+    timed = fsmlab.fsm_desc(max_states=3, max_events=2, timers=True, flaky=True)
+    return st.one_of(small, small, big, timed).flatmap(
         lambda d: st.booleans().map(lambda cb: dict(d, cb_driver=cb)))
 
 
